@@ -195,6 +195,9 @@ def history_block(ctx):
         outs = list(ex.map(lambda j: freshproc.run_spec(j[2], "c16_%d_%s" % (j[0], j[1]), ctx.dir), jobs))
     for i, (what, h, p_) in enumerate(hist):
         oh, op_ = outs[2 * i], outs[2 * i + 1]
+        if "timeout" in (oh.get("error"), op_.get("error")):     # an overloaded machine is not a violation: counted, not judged
+            ctx.cov["history_timeouts"] = ctx.cov.get("history_timeouts", 0) + 1
+            continue
         if not op_.get("ok"):
             ctx.violation("C16|history|plain-fit-fails|%d" % i, "a plain FunctionEstimator fit fails in a fresh interpreter",
                           {"steps": p_, "error": op_.get("error")})
